@@ -55,7 +55,7 @@ func (s *c13Script) spawn(op c13Op) *c13Call {
 // seq performs op synchronously (a goroutine of its own in the history, no overlap).
 func (s *c13Script) seq(op c13Op) *c13Call {
 	call := s.spawn(op)
-	s.waitDone(call, 5*time.Second)
+	s.waitDone(call, 20*time.Second)
 	return call
 }
 
@@ -73,7 +73,7 @@ func (s *c13Script) waitDone(c *c13Call, d time.Duration) bool {
 }
 
 func (s *c13Script) waitStarted(n int) {
-	deadline := time.Now().Add(2 * time.Second)
+	deadline := time.Now().Add(10 * time.Second)
 	for int(atomic.LoadInt32(&s.started)) < n && time.Now().Before(deadline) {
 		runtime.Gosched()
 	}
@@ -86,7 +86,7 @@ func (s *c13Script) settle() { time.Sleep(4 * time.Millisecond) }
 // meaningful while a READER holds the lock.
 func (s *c13Script) waitWriterQueued() bool {
 	mu := s.e.GetLock()
-	deadline := time.Now().Add(5 * time.Second)
+	deadline := time.Now().Add(20 * time.Second)
 	for time.Now().Before(deadline) {
 		if mu.TryRLock() {
 			mu.RUnlock()
@@ -148,7 +148,7 @@ func (g *c13Gate) waitInside() bool {
 	select {
 	case <-g.inside:
 		return true
-	case <-time.After(2 * time.Second):
+	case <-time.After(10 * time.Second):
 		return false
 	}
 }
@@ -419,7 +419,7 @@ var c13Scenarios = []c13Scenario{
 		r3 := s.spawn(c13Enf(sc.p("carol", "data1", "read")))
 		r4 := s.spawn(c13Enf(sc.p("bob", "data1", "read")))
 		for _, r := range []*c13Call{r1, r2, r3, r4} {
-			if !s.waitDone(r, 2*time.Second) {
+			if !s.waitDone(r, 10*time.Second) {
 				s.bad("%s did not finish within 2 s while LoadPolicy was parked in phase 1 under the READ lock: reader blocked by reader", r.op.String())
 			}
 		}
@@ -460,7 +460,7 @@ var c13Scenarios = []c13Scenario{
 		b3 := s.spawn(c13Kind(c13GetP))
 		b4 := s.spawn(c13Enf(sc.p("carol", "data1", "read")))
 		for _, r := range []*c13Call{b1, b2, b3, b4} {
-			if !s.waitDone(r, 2*time.Second) {
+			if !s.waitDone(r, 10*time.Second) {
 				s.bad("%s did not finish within 2 s while another Enforce was parked under the READ lock: reader blocked by reader", r.op.String())
 			}
 		}
@@ -490,7 +490,7 @@ var c13Scenarios = []c13Scenario{
 			s.bad("Enforce never reached the matcher function")
 		}
 		b := s.spawn(c13Enf(sc.p("bob", "data1", "read")))
-		if !s.waitDone(b, 2*time.Second) {
+		if !s.waitDone(b, 10*time.Second) {
 			s.bad("reader blocked by reader")
 		}
 		w := s.spawn(c13Rem(grant))
@@ -553,7 +553,7 @@ var c13Scenarios = []c13Scenario{
 			s.bad("Enforce never reached the logger")
 		}
 		b := s.spawn(c13Enf(sc.p("bob", "data1", "read")))
-		if !s.waitDone(b, 2*time.Second) {
+		if !s.waitDone(b, 10*time.Second) {
 			s.bad("reader blocked by reader")
 		}
 		w := s.spawn(c13Rem(grant))
